@@ -23,5 +23,14 @@ claim("C18",
   "Static analysis of package main: constant evaluation of os.OpenFile flags/permissions, a who-may-write-stdout analysis (call-graph closure of fmt.Print*/os.Stdout writers) combined with path feasibility in main.main (os.Exit/log.Fatal as terminators, transitive control-dependence literals for contradictory flag tests) around the JSON-printing statements, exits non-zero and never after RunFiles, replace-mode table by partial evaluation, documented flag set.",
   "Does not decide the process-level behaviour of the built binary; assumes flag.PrintDefaults/log/println go to stderr; the -files path parser's string algorithm is not decided (C20).",
   "call-graph effect analysis + control dependence + constant evaluation", "DESIGN.md section 5 C18")
-for pid in ["C01","C02","C03","C04","C05","C06","C07","C08","C09","C10","C14","C15","C16","C20"]:
-    NA[pid] = "check under construction in this session (rules designed in DESIGN.md section 5, not yet implemented in the checker); not claimed until its rules run"
+claim("C14",
+  "Equivalence with a regex engine is not decided. Decided by static table extraction on SSA: every AstLoop literal of parse_regexp_quantifier with the character tests it is control-dependent on gives the quantifier table (* + ? {m} {m,} {m,n}); the lazy marker's handling may not depend on the loop bounds; the atom table (^ $ . \\d \\D \\s \\S) of the literal/escape parsers; the capturing group's number is read before the recursive call that parses its body (dominance).",
+  "Only the regex-specific translation tables and numbering order; the matching semantics of the resulting AST is C01's (not decided). A renumbering scheme that is not a counter is reported UNDECIDED.",
+  "SSA control-dependence table extraction + dominance", "DESIGN.md section 5 C14")
+claim("C16",
+  "Static necessary conditions of string-literal decoding: push-back depth vs. bufio's one-level UnreadRune at every unread call site, the escape table and IsHex folded over every ASCII rune (constant propagation through getEscapedRune/IsHex), HexToAscii base, sibling comparison of the two quote-style branches of the lexer (AST, modulo state constants and quote), and read() returning exactly the rune of one ReadRune call.",
+  "Does not decide the lexer state machine as a whole; trusts bufio's documented behaviour.",
+  "typestate on push-back depth + constant folding of the escape tables + sibling-branch comparison", "DESIGN.md section 5 C16")
+for pid in ["C01","C02","C03","C04","C05","C06","C07","C08","C09","C10","C11","C12","C13","C14","C15","C16","C17","C18","C19","C20"]:
+    if pid not in CLAIMED:
+        NA[pid] = "check under construction in this session (rules designed in DESIGN.md section 5, not yet implemented in the checker); not claimed until its rules run"
